@@ -105,3 +105,69 @@ func memEdgeDiff() {
 	}
 	rep.Count(fmt.Sprintf("memedge:instructions=%d", len(ops)))
 }
+
+// atomicWaitGrid: memory.atomic.wait32 / wait64 compare the cell with the EXPECTED operand over its full width before
+// they park: cell == expected -> the call times out (2), else it returns "not-equal" (1) at once.  Every single-bit
+// difference between cell and expected, and equality at values with high bits set, on both engines (finite timeout,
+// single-threaded: nobody notifies).
+func atomicWaitGrid() {
+	ctx := context.Background()
+	m := wb.New()
+	one := uint32(1)
+	m.Memory(1, &one, true, "memory")
+	m.AddFunc(wb.Func{Params: []byte{wb.I64}, Export: "store", Body: wb.Cat(wb.I32Const(64), wb.LocalGet(0), wb.MemArg(wasm.OpcodeI64Store, 3, 0))})
+	m.AddFunc(wb.Func{Params: []byte{wb.I64}, Results: []byte{wb.I32}, Export: "wait64",
+		Body: wb.Cat(wb.I32Const(64), wb.LocalGet(0), wb.I64Const(1000), wb.Op(wasm.OpcodeAtomicPrefix, wasm.OpcodeAtomicMemoryWait64, 3, 0))})
+	m.AddFunc(wb.Func{Params: []byte{wb.I32}, Results: []byte{wb.I32}, Export: "wait32",
+		Body: wb.Cat(wb.I32Const(64), wb.LocalGet(0), wb.I64Const(1000), wb.Op(wasm.OpcodeAtomicPrefix, wasm.OpcodeAtomicMemoryWait32, 2, 0))})
+	bin := m.Bytes()
+	var mods [2]api.Module
+	for ei, rc := range []wazero.RuntimeConfig{wazero.NewRuntimeConfigInterpreter(), wazero.NewRuntimeConfigCompiler()} {
+		rt := wazero.NewRuntimeWithConfig(ctx, rc.WithCoreFeatures(features))
+		defer rt.Close(ctx)
+		mod, err := safeInstantiate(ctx, rt, bin)
+		if err != nil {
+			rep.Note("atomic wait grid skipped: %v", err)
+			return
+		}
+		mods[ei] = mod
+	}
+	cells := []uint64{0, 1, 0xffffffff, 0x100000000, 0x100000005, 0x8000000000000000, 0xffffffffffffffff, 0x0123456789abcdef}
+	for _, cell := range cells {
+		var exps []uint64
+		exps = append(exps, cell)
+		for k := 0; k < 64; k += 3 {
+			exps = append(exps, cell^(1<<uint(k)))
+		}
+		exps = append(exps, cell^(1<<63), cell^(1<<32), cell^(1<<31))
+		for _, fn := range []string{"wait64", "wait32"} {
+			for _, exp := range exps {
+				arg := exp
+				if fn == "wait32" {
+					arg = uint64(uint32(exp))
+				}
+				var obs [2]string
+				for ei := range mods {
+					if _, err := mods[ei].ExportedFunction("store").Call(ctx, cell); err != nil {
+						obs[ei] = "store: " + trapClass(err)
+						continue
+					}
+					res, err := mods[ei].ExportedFunction(fn).Call(ctx, arg)
+					if err != nil {
+						obs[ei] = trapClass(err)
+					} else {
+						obs[ei] = fmt.Sprint(uint32(res[0])) // an i32 result: the low 32 bits are the value
+					}
+				}
+				rep.Case(fmt.Sprintf("atomic-wait/%s/%x/%x", fn, cell, arg))
+				if obs[0] != obs[1] {
+					rep.Violate(hx.Violation{Kind: "impl-violation", Signature: "C01:engines-differ:" + fn + "-expected-comparison",
+						What:     fmt.Sprintf("memory.atomic.%s with the cell holding %#x and expected %#x (timeout 1000ns, nobody notifies): interpreter returns %s, compiler %s (1 = not-equal, 2 = timed-out)", fn, cell, arg, obs[0], obs[1]),
+						Input:    map[string]any{"instruction": "memory.atomic." + fn, "cell": cell, "expected": arg, "timeout_ns": 1000},
+						Expected: obs[0], Actual: obs[1]})
+					return
+				}
+			}
+		}
+	}
+}
